@@ -24,15 +24,15 @@ OUT = tlc.OUT
 AS_IS = {"sync": [], "gthread": ["GthreadDropsUndispatched"], "async": ["AsyncAcceptsUntilPoll"]}
 
 
-def model(ctx, fam, mx, dev=(), expect_ok=True):
-    cfg = os.path.join(OUT, "cfg", "Recycle_%s_%d_%s.cfg" % (fam, mx, "dev" if dev else "design"))
+def model(ctx, fam, mx, dev=(), expect_ok=True, reqs=2, conns=3):
+    cfg = os.path.join(OUT, "cfg", "Recycle_%s_%d_%s.cfg" % (fam, mx, "_".join(dev) if dev else "design"))
     os.makedirs(os.path.dirname(cfg), exist_ok=True)
-    tlc.write_cfg(cfg, spec="Spec", constants={"Family": fam, "Max": mx, "Conns": "@{c1, c2, c3, c4}", "Threads": 2,
-                                               "Dev": set(dev)},
-                  invariants=["NoClientVisibleDrop", "CountBounded"],
+    tlc.write_cfg(cfg, spec="Spec", constants={"Family": fam, "Max": mx, "Conns": "@{%s}" % ", ".join("c%d" % i for i in range(1, conns + 1)),
+                                               "Threads": 2, "Dev": set(dev), "Reqs": reqs},
+                  invariants=["NoClientVisibleDrop", "CountBounded", "WorkAfterLimitBounded"],
                   properties=["StopsAcceptingAfterLimit", "LimitAndInflightAnswered", "ExitsAndReplaced",
                               "NeverRecycledWhenUnset", "EverybodyServed"])
-    r = tlc.run("Recycle", cfg, name="Recycle_%s_%d_%s" % (fam, mx, "dev" if dev else "design"), workers=4, timeout=600)
+    r = tlc.run("Recycle", cfg, name="Recycle_%s_%d_%s" % (fam, mx, "_".join(dev) if dev else "design"), workers=4, timeout=600)
     if expect_ok:
         if not r.ok:
             raise tlc.TLCError("Recycle design %s max=%d violates %s" % (fam, mx, r.violated))
@@ -283,6 +283,7 @@ def c18(ctx):
             model(ctx, fam, mx)
     model(ctx, "async", 2, dev=["AsyncAcceptsUntilPoll"], expect_ok=False)
     model(ctx, "gthread", 2, dev=["GthreadDropsUndispatched"], expect_ok=False)
+    model(ctx, "async", 2, dev=["KeepAliveAfterLimit"], expect_ok=False, reqs=3, conns=2)
     ctx.coverage["exhaustive"] = True
     traces, metas = [], []
     for kind in ("sync", "gthread", "async"):
